@@ -5,7 +5,7 @@
    open_registry() reads that file; a fresh instance of class k is set from the cache". *)
 From Coq Require Import List NArith ZArith.
 Import ListNotations.
-Require Import Base.Wire Base.PyStr C15.Model C15.Lemmas C15.Names C15.Codec C15.Split C15.File C15.Tree C15.Final C15.Atomic.
+Require Import Base.Wire Base.PyStr C15.Model C15.Lemmas C15.Names C15.Codec C15.Split C15.File C15.FileMulti C15.Tree C15.Final C15.Atomic C15.Gen C15.Restart.
 Require Import gen.T15.
 
 (* ---- names: split inverts join for every non-empty list of names (full statement since the
@@ -182,3 +182,73 @@ Theorem C15_store_then_effect_refuted :
   exists o, fst (exec (SSeq (SSeq SCheck (SIf SError SSkip)) (SSeq SAssign SCheck)) o false) = (true, true).
 Proof. exact store_then_effect_not_atomic. Qed.
 Print Assumptions C15_store_then_effect_refuted.
+
+(* ---- restarts: the loader cache and the registration functions of src/conf.py.
+   A whole file of value lines (good names, valid texts) is read back line for line. *)
+Theorem C15_file_text_loads :
+  forall ls, forallb line_ok ls = true -> open_registry (file_text ls) = Ok ls.
+Proof. exact open_file_text. Qed.
+Print Assumptions C15_file_text_loads.
+
+(* One variable d with base value b and specific settings [items] (channel values, network nodes
+   with their channel values, in the order close() writes them).  Its lines sit in a cache between the
+   lines A, B of other variables which the scan of d ignores (foreign) and lookups by name are
+   unambiguous.  Then registering d re-creates exactly those settings, and saving writes exactly those
+   lines.  items_ok: valid names, channels that are channels, every value survives str()/set() (rt),
+   different nodes have different paths, and EVERY NETWORK NODE HAS AT LEAST ONE CHANNEL VALUE -- the
+   domain: a network-level value alone is dropped (C15_network_only_refuted, finding C15.F27). *)
+Theorem C15_load_save_var :
+  forall d b items A B,
+  items_ok d b items -> foreign d A -> foreign d B ->
+  unambiguous d b items (A ++ var_lines d b items ++ B) ->
+  load_var d (A ++ var_lines d b items ++ B) = Ok (var_state b items) /\
+  save_var d (var_state b items) = var_lines d b items.
+Proof. exact load_save_var. Qed.
+Print Assumptions C15_load_save_var.
+
+(* Every set of registered variables E (file_ok: the above for each of them w.r.t. the whole file),
+   any number n of restarts: each session loads the TEXT the previous one saved, registers every
+   variable, reads nothing, sets nothing, saves -- and saves the same lines again; nothing a previous
+   session saved is dropped by a session that does not touch it. *)
+Theorem C15_save_is_idempotent_across_restarts :
+  forall E n,
+  file_ok E -> forallb line_ok (file_of E) = true -> NoDup (map lkey (file_of E)) ->
+  generations (decls_of E) (file_of E) (repeat [] n) = repeat (Ok (file_of E, [])) n.
+Proof. exact generations_fixpoint. Qed.
+Print Assumptions C15_save_is_idempotent_across_restarts.
+
+(* the hypotheses on values hold for these classes ... *)
+Theorem C15_rt_values :
+  (forall d v, d_kind d = KString -> vstr v = true -> rt d (PS v)) /\
+  (forall d x, d_kind d = KBoolean -> rt d (PB x)) /\
+  (forall d lo z, d_kind d = KInteger lo -> int_accepts lo z = true -> rt d (PI z)).
+Proof. exact (conj rt_string (conj rt_boolean rt_integer)). Qed.
+Print Assumptions C15_rt_values.
+
+(* ... unambiguous follows from keys that differ after lower() *)
+Theorem C15_unambiguous_from_nodup :
+  forall d b items A B,
+  NoDup (map lkey (A ++ var_lines d b items ++ B)) ->
+  (forall n chans, In (INet n None chans) items ->
+     ~ In (lower (nm d [n])) (map lkey (A ++ var_lines d b items ++ B))) ->
+  unambiguous d b items (A ++ var_lines d b items ++ B).
+Proof. exact unambiguous_nodup. Qed.
+Print Assumptions C15_unambiguous_from_nodup.
+
+(* ... and the statement is not vacuous: a camelCase channel variable with a channel value and a
+   network+channel value below an unset network *)
+Theorem C15_restart_example :
+  session [ex_d] (file_of [(ex_d, PS [122], ex_items)]) [] = Ok (file_of [(ex_d, PS [122], ex_items)], []).
+Proof. exact ex_session. Qed.
+Print Assumptions C15_restart_example.
+
+(* outside the domain (finding C15.F27): a network-level value without channel values below it is not
+   re-created by the scan; the next untouched save writes only the base line *)
+Theorem C15_network_only_refuted :
+  match load_var ex_d (var_lines ex_d (PS [122]) ex_netonly) with
+  | Ok st => save_var ex_d st <> var_lines ex_d (PS [122]) ex_netonly /\
+             save_var ex_d st = [(gname_of ex_d, str_of KString (PS [122]))]
+  | Raise _ => False
+  end.
+Proof. exact ex_netonly_dropped. Qed.
+Print Assumptions C15_network_only_refuted.
